@@ -126,6 +126,8 @@ def run_case(col, case):
     Size = L.geometry.Size
     part = case["part"]
     col.count()
+    if part == "D":
+        return run_case_d(col, case)
     if part == "A":          # Padding.pad / get_padded_size / to_exact / resolve directly
         w, h = case["size"]
         fill = case["fill"]
@@ -149,6 +151,12 @@ def run_case(col, case):
                     else:
                         col.violation(dict(part=part, clause="relative-unresolved-raises", api=name),
                                       f"{name} on relative padding did not raise", case)
+                # other relative paddings resolved earlier in the same process must not influence this one
+                for dw, dh in ((-1, 0), (0, -1), (1, 1), (0, 1)):
+                    nw, nh = min(pw + dw, 0) if pw <= 0 else pw, min(ph + dh, 0) if ph <= 0 else ph
+                    if (nw, nh) != (pw, ph):
+                        P.AlignedPadding(nw, nh, P.HAlign(ha), P.VAlign(va), fill).resolve(
+                            world.W.tty.get_terminal_size())
                 res = pad.resolve(world.W.tty.get_terminal_size())
                 ew = pw if pw > 0 else max(term[0] + pw, 1)
                 eh = ph if ph > 0 else max(term[1] + ph, 1)
@@ -274,6 +282,43 @@ def run_case(col, case):
             col.add_distinct(h64(padded))
 
 
+def run_case_d(col, case):
+    """Part D: frames of an ImageIterator over a dynamically sized image with a padding larger than the
+    render, terminal resized between two frames: every frame is the frame rendered at the size the image
+    has at that moment, placed inside the (absolute) padding resolved when the iterator was created."""
+    L = world.load()
+    from ..c06_common import _file  # one atomically written GIF per (w, h, n)
+    t1, t2 = case["terms"]
+    ha, va = case["align"]
+    world.setup("other", *t1)
+    path = _file("gif", 4, 4, 3)
+    img = L.image.BlockImage.from_file(path)
+    twin = L.image.BlockImage.from_file(path)
+    if case["size"] != "FIT":
+        img.size = twin.size = getattr(L.image.Size, case["size"])
+    pw, ph = case["pad"]
+    spec = f"{ha}{pw}.{va}{ph}"
+    it = L.image.ImageIterator(img, case["repeat"], spec, case["cached"])
+    try:
+        for step, term in enumerate(case["schedule"]):
+            tty = world.W.tty
+            tty.cols, tty.rows = (t1, t2)[term]
+            fr = next(it)
+            k = step % 3
+            twin.seek(k)
+            inner = format(twin, "1.1")
+            w, h = twin.rendered_size
+            W, H = max(pw, w), max(ph, h)
+            left, top, _, _ = ref_offsets(w, h, W, H, {"<": 0, "|": 1, ">": 2}[ha], {"^": 0, "-": 1, "_": 2}[va])
+            c = dict(case, step=step)
+            judge(col, c, fr, inner, "other", w, h, W, H, left, top, " ", False)
+            col.add_distinct(h64(fr))
+    finally:
+        it.close()
+        img.close()
+        twin.close()
+
+
 def build_cases(tier):
     quick = tier == "quick"
     sizes = [(1, 1), (2, 1), (1, 2), (3, 2), (2, 3)] if quick else list(itertools.product((1, 2, 3), (1, 2, 3)))
@@ -284,7 +329,7 @@ def build_cases(tier):
     aligned = [(pw, ph, ha, va) for pw in range(-3, 7) for ph in range(-3, 6)
                for ha in range(3) for va in range(3)]
     if quick:
-        aligned = [a for a in aligned if a[0] in (-3, 0, 1, 2, 4, 5) and a[1] in (-2, 0, 1, 3, 4)]
+        aligned = [a for a in aligned if a[0] in (-3, -1, 0, 1, 2, 4, 5) and a[1] in (-2, -1, 0, 1, 3, 4)]
     # relative dimensions that reach the max(terminal + d, 1) clamp (|d| >= terminal dimension)
     clamp = [(pw, ph, ha, va) for pw in (-9, -8, -6, 0, 2) for ph in (-7, -6, -5, 0, 2)
              for ha in (0, 1, 2) for va in (0, 1, 2) if pw < -3 or ph < -3]
@@ -342,6 +387,16 @@ def build_cases(tier):
                                         continue
                                 cases.append(dict(part="C", kind=kind, size=size, term=term, tight=False,
                                                   args=(ha, pw, va, ph)))
+    for terms in (((12, 8), (8, 6)), ((8, 6), (12, 8))):
+        for size in ("FIT", "ORIGINAL") if quick else ("FIT", "AUTO", "ORIGINAL", "FIT_TO_WIDTH"):
+            for ha in "<|>":
+                for va in "^-_":
+                    for cached in (False, True):
+                        for schedule in ((0, 1, 1, 1), (0, 0, 0, 1, 0, 1)) if quick else \
+                                ((0, 1, 1, 1), (0, 0, 0, 1, 0, 1), (0, 1, 0, 1, 0, 1), (1, 0, 0, 0, 1, 1)):
+                            cases.append(dict(part="D", kind="block", pad_=None, terms=terms, size=size,
+                                              align=(ha, va), pad=(14, 9), cached=cached, repeat=2,
+                                              schedule=schedule))
     return cases
 
 
